@@ -717,5 +717,7 @@ def declared_order_pending_slm(gen: ProgGen) -> None:  # pragma: no cover - docu
 def header(rng, **kw) -> tuple[dict, dict]:
     regkw = {k: kw.pop(k) for k in ("nmin", "nmax", "kind", "ids") if k in kw}
     dev = gen_device(rng, **kw)
+    if "ids" not in regkw and rng.random() < 0.15:
+        regkw["ids"] = "int"  # the default integer ids 0, 1, ... (0 is falsy, ints collide with indices)
     reg = gen_register(rng, dev, **regkw)
     return dev, reg
